@@ -21,6 +21,14 @@ VARIANT SWITCH `WriteMode` (DESIGN §2.5) for the file-write primitive `key.Save
                      complete NEW content.
 Which of the two the tree under test has is the regenerated fact `Gen.keySaveVariant` (`codeWriteMode`,
 `tie_keySave` in DrandProofs/C13.lean); the extractor refuses any other shape.
+
+VARIANT SWITCH `Startup` for the start-up path `DrandDaemon.LoadBeaconFromStore`:
+  * `asIs`        — with a completed DKG record in dkg.db it goes straight to `BeaconProcess.Load`;
+  * `reconcile m` — with a completed DKG record `reconcileKeyFiles` first makes the key folder agree with the record
+                    (its own writes are `key.Save`s / a `Reset`, i.e. steps of the file-write primitive `m`, and can be
+                    interrupted by a crash like any other step), then `Load`.
+Which of the two the tree has is the regenerated fact `Gen.startupVariant` (`codeStartup`, `tie_loadBeaconFromStore`,
+`tie_reconcileKeyFiles`); the extractor refuses any other shape of either function.
 -/
 import Gen.Persist
 
@@ -274,9 +282,34 @@ def bpLoadL (member : Nat → Bool) (g s : Loaded) : Outcome :=
 
 def bpLoad (member : Nat → Bool) (d : Disk) : Outcome := bpLoadL member (loadFile d.group) (loadFile d.share)
 
-def loadBeaconFromStoreCalls : List String :=
-  ["InstantiateBeaconProcess", "dkg.DKGStatus", "fresh:store.LoadGroup", "fresh:store.LoadShare", "fresh:dkg.Migrate",
-   "bp.Load", "AddBeaconHandler", "bp.StartBeacon"]
+/-- the start-up path (variant switch) -/
+inductive Startup where
+  | asIs                        -- straight to `Load`
+  | reconcile (m : WriteMode)   -- `reconcileKeyFiles` before `Load`; its Saves use the file-write primitive `m`
+  deriving DecidableEq, Repr
+
+/-- `DrandDaemon.LoadBeaconFromStore`, the calls as go2lean lists them, per variant -/
+def loadBeaconFromStoreCalls (reconciles : Bool) : List String :=
+  ["InstantiateBeaconProcess", "dkg.DKGStatus", "fresh:store.LoadGroup", "fresh:store.LoadShare", "fresh:dkg.Migrate"] ++
+  (if reconciles then ["completed:reconcileKeyFiles"] else []) ++
+  ["bp.Load", "AddBeaconHandler", "bp.StartBeacon"]
+
+/-- `DrandDaemon.reconcileKeyFiles`: calls and returns in evaluation order, tagged with their branch -/
+def reconcileKeyFilesCalls : List String :=
+  ["dkg.LastCompleted", "norecord:return", "store.LoadGroup", "store.LoadShare", "group.PublicKey.Equal", "share.Public.Equal",
+   "insync:return", "newer:return", "FinalGroup.Find", "out:nofiles:return", "out:store.Reset", "out:return",
+   "store.SaveGroup", "err:return", "store.SaveShare", "return"]
+
+/-- its in-sync tests: a file is "of the recorded epoch" iff it carries the record's distributed public polynomial (fresh
+in every epoch, and `group.PublicKey = share.Public()` by construction of the group in `asGroup`) -/
+def reconcileInSyncDefs : List String :=
+  ["distKey:=done.FinalGroup.PublicKey",
+   "groupInSync:=group!=nil&&group.PublicKey!=nil&&group.PublicKey.Equal(distKey)",
+   "shareInSync:=shareErr==nil&&share.Public().Equal(distKey)"]
+
+/-- the variant the tree under test has (regenerated facts) -/
+def codeReconciles : Bool := Gen.startupVariant == "reconcile"
+def codeStartup : Startup := if codeReconciles then .reconcile codeWriteMode else .asIs
 
 /-- `DrandDaemon.LoadBeaconFromStore`, outcome: with a completed epoch in dkg.db it is `Load`; without one
 (`freshRun`) a missing group file means a fresh install, an existing one triggers the v1 migration path -/
@@ -323,16 +356,60 @@ structure Recovered where
   chain : List Nat
   deriving DecidableEq, Repr
 
-/-- configuration switch for the corrected variant (DESIGN §2.5): reconcile the key files from the finished
-DKG record before loading (the record holds the final group and the key share of its epoch) -/
-structure Cfg where
-  reconcile : Bool
+/-- `group != nil && group.TransitionTime > done.FinalGroup.TransitionTime`: the group file decodes to a group of a LATER
+epoch than the record (transition times grow with the epochs) -/
+def Loaded.newerThan (g : Loaded) (e : Nat) : Bool :=
+  match g with
+  | .val k => decide (e < k)
+  | .truncated k => decide (e < k)
+  | _ => false
 
-def reconcileFiles (member : Nat → Bool) (d : Disk) : Disk :=
+/-- the disk steps of `DrandDaemon.reconcileKeyFiles` on disk `d`, as written:
+no completed record — nothing (the function is only reached with one); both files carry the record's distributed key —
+nothing; the group file is newer than the record — nothing (never downgrade); this node is not in the recorded group —
+`Reset` if a group or a share is still there, else nothing; otherwise `SaveGroup`, `SaveShare` from the record.
+A decoder panic while loading (in-place variant only) ends start-up before any step. -/
+def reconcileOps (m : WriteMode) (member : Nat → Bool) (d : Disk) : List Op :=
   match d.db.finished with
-  | none => d
-  | some e => if member e then { d with group := .whole e, share := .whole e }
-              else { d with group := .absent, share := .absent }
+  | none => []
+  | some e =>
+    let g := loadFile d.group
+    let s := loadFile d.share
+    if g == .panics || s == .panics then []
+    else if g == .val e && s == .val e then []
+    else if g.newerThan e then []
+    else if member e then saveGroupOps m e ++ saveShareOps m e
+    else if !g.decodes && !s.decodes then []
+    else resetOps m
+
+abbrev Cfg := Startup
+def asIs : Cfg := .asIs
+def fixed (m : WriteMode) : Cfg := .reconcile m
+
+/-- the disk after the start-up path's own key-file writes, if it completes them -/
+def reconciled (cfg : Cfg) (member : Nat → Bool) (d : Disk) : Disk :=
+  match cfg with
+  | .asIs => d
+  | .reconcile m => run d (reconcileOps m member d)
+
+@[simp] theorem reconciled_asIs (member : Nat → Bool) (d : Disk) : reconciled .asIs member d = d := rfl
+
+/-- a key file a reconciling start-up copes with: absent, or the complete file of an epoch that is not later than the
+completed record — and, for the record's own epoch, only on a node that is in that epoch's group -/
+def okFile (member : Nat → Bool) (fin : Option Nat) : FileState → Bool
+  | .absent => true
+  | .whole k =>
+    match fin with
+    | none => false
+    | some e => decide (k < e) || (k == e && member e)
+  | _ => false
+
+/-- the invariant of the on-disk state under the atomicRename file-write primitive: both key files are complete files of
+epochs the database has reached (stale or current), never torn, never ahead of the database. Every self-consistent disk
+satisfies it, every crash point of every persistence sequence — a reconciliation included — preserves it, and a
+reconciling start-up turns every such disk into a self-consistent one (DrandProofs/C13.lean). -/
+def Sane (member : Nat → Bool) (d : Disk) : Bool :=
+  okFile member d.db.finished d.group && okFile member d.db.finished d.share
 
 /-- a key file that is not the leftover of an interrupted in-place write: absent, or one complete encoding -/
 def FileState.intact : FileState → Bool
@@ -346,14 +423,12 @@ def Loaded.sound : Loaded → Bool
   | .truncated _ => false
   | _ => true
 
-/-- what a restart finds in a crash image -/
+/-- what a restart finds in a crash image: the database records as the crash left them, and the key files, the start-up
+outcome and the chain once the start-up path has run to its end -/
 def recover (cfg : Cfg) (member : Nat → Bool) (d : Disk) : Recovered :=
-  let d := if cfg.reconcile then reconcileFiles member d else d
+  let d := reconciled cfg member d
   { fin := d.db.finished, cur := d.db.current, group := loadFile d.group, share := loadFile d.share,
     outcome := (startup member d).1, chain := d.chain }
-
-def asIs : Cfg := ⟨false⟩
-def fixed : Cfg := ⟨true⟩
 
 /-- the property statement on one recovered image: the key files belong to one epoch, the latest one the database
 records as completed; a node that is not in that epoch's group holds no key files; a node without a completed
